@@ -30,7 +30,7 @@
    update, a bucket's copy and a Get's read of its key are one step each; the tbl engine replays the
    real table's hook-to-hook schedules on this model.  Clear under concurrency is checked by
    implementation oracles only. *)
-From Otter Require Import Base HashMap HashMapFacts HashMapBytes HashMapRefine HashMapConc HashMapConcProofs HashMapConcLive.
+From Otter Require Import Base HashMap HashMapFacts HashMapBytes HashMapRefine HashMapConc HashMapConcProofs HashMapConcLive HashMapConcSize.
 From Coq Require Import Permutation.
 
 Theorem C15_seq_refines_map : forall hashf n ops,
@@ -89,15 +89,15 @@ Print Assumptions C15_get_exact.
 
 (* nothing is lost across resizes: at every moment the table m.table points to holds exactly the
    abstract map (a key inserted and not removed is there; a removed key is not) *)
-Theorem C15_concurrent_table_is_the_map : forall hidx n0 ops sched, (1 <= n0)%nat ->
-  let s := hrun hidx (hinit n0 ops) sched in forall k, stores s (hcur s) k = spec s k.
+Theorem C15_concurrent_table_is_the_map : forall hidx KU n0 ops sched, (1 <= n0)%nat ->
+  let s := hrun hidx KU (hinit n0 ops) sched in forall k, stores s (hcur s) k = spec s k.
 Proof. exact conc_table_is_spec. Qed.
 Print Assumptions C15_concurrent_table_is_the_map.
 
 (* an update function is applied atomically: the writer about to apply it holds the lock of the key's
    bucket in the CURRENT table and the binding it is about to be given is the abstract map's *)
-Theorem C15_concurrent_update_atomic : forall hidx n0 ops sched j t, (1 <= n0)%nat ->
-  let s := hrun hidx (hinit n0 ops) sched in
+Theorem C15_concurrent_update_atomic : forall hidx KU n0 ops sched j t, (1 <= n0)%nat ->
+  let s := hrun hidx KU (hinit n0 ops) sched in
   nth_error (hths s) j = Some t -> hpc_ t = W4 ->
   hsnap t = hcur s /\ stores s (hsnap t) (hkey t) = spec s (hkey t) /\ lk s (hsnap t) (hbi t) = true.
 Proof. exact conc_update_sees_current. Qed.
@@ -105,22 +105,22 @@ Print Assumptions C15_concurrent_update_atomic.
 
 (* ... and exactly once per call, whatever retries the resizes forced: a thread has applied its function
    once when it is past its update step (or resizing after it), not at all before *)
-Theorem C15_concurrent_applied_exactly_once : forall hidx n0 ops sched j t, (1 <= n0)%nat ->
-  nth_error (hths (hrun hidx (hinit n0 ops) sched)) j = Some t -> happ t = b2n (applied t).
+Theorem C15_concurrent_applied_exactly_once : forall hidx KU n0 ops sched j t, (1 <= n0)%nat ->
+  nth_error (hths (hrun hidx KU (hinit n0 ops) sched)) j = Some t -> happ t = b2n (applied t).
 Proof. exact conc_applied_exactly_once. Qed.
 Print Assumptions C15_concurrent_applied_exactly_once.
 
 (* a lock-free Get returns the binding its key had in the abstract map at some moment between its
    table load and its return — never a binding older than the map current when it began *)
-Theorem C15_concurrent_get_regular : forall hidx n0 ops sched j t, (1 <= n0)%nat ->
-  let s := hrun hidx (hinit n0 ops) sched in
+Theorem C15_concurrent_get_regular : forall hidx KU n0 ops sched j t, (1 <= n0)%nat ->
+  let s := hrun hidx KU (hinit n0 ops) sched in
   nth_error (hths s) j = Some t -> hpc_ t = GDone ->
   (hst t - 1 <= hwit t < length (hist s))%nat /\ nth (hwit t) (hist s) dflt (hkey t) = hres t.
 Proof. exact conc_read_regular. Qed.
 Print Assumptions C15_concurrent_get_regular.
 
-Theorem C15_concurrent_get_quiescent : forall hidx n0 ops sched j t, (1 <= n0)%nat ->
-  let s := hrun hidx (hinit n0 ops) sched in
+Theorem C15_concurrent_get_quiescent : forall hidx KU n0 ops sched j t, (1 <= n0)%nat ->
+  let s := hrun hidx KU (hinit n0 ops) sched in
   nth_error (hths s) j = Some t -> hpc_ t = GDone -> hst t = length (hist s) -> hres t = spec s (hkey t).
 Proof. exact conc_read_quiescent. Qed.
 Print Assumptions C15_concurrent_get_quiescent.
@@ -130,62 +130,87 @@ Print Assumptions C15_concurrent_get_quiescent.
    key present during the whole iteration is yielded, a key removed before it began (and not re-inserted)
    is not, and a yielded binding is one the key had meanwhile.  (At most once per key: a key lives in one
    bucket of a table version and every bucket is read once — the sequential theorems' layout.) *)
-Theorem C15_concurrent_iteration_sound : forall hidx n0 ops sched j t, (1 <= n0)%nat ->
-  let s := hrun hidx (hinit n0 ops) sched in
+Theorem C15_concurrent_iteration_sound : forall hidx KU n0 ops sched j t, (1 <= n0)%nat ->
+  let s := hrun hidx KU (hinit n0 ops) sched in
   nth_error (hths s) j = Some t -> hpc_ t = IDone ->
   forall k, (hst t - 1 <= hwitf t k < length (hist s))%nat /\ nth (hwitf t k) (hist s) dflt k = hyield t k.
 Proof. exact conc_iter_sound. Qed.
 Print Assumptions C15_concurrent_iteration_sound.
 
-Theorem C15_concurrent_iteration_complete : forall hidx n0 ops sched j t k, (1 <= n0)%nat ->
-  let s := hrun hidx (hinit n0 ops) sched in
+Theorem C15_concurrent_iteration_complete : forall hidx KU n0 ops sched j t k, (1 <= n0)%nat ->
+  let s := hrun hidx KU (hinit n0 ops) sched in
   nth_error (hths s) j = Some t -> hpc_ t = IDone ->
   (forall w, (hst t - 1 <= w < length (hist s))%nat -> nth w (hist s) dflt k <> None) -> hyield t k <> None.
 Proof. exact conc_iter_complete. Qed.
 Print Assumptions C15_concurrent_iteration_complete.
 
-Theorem C15_concurrent_iteration_no_removed_entry : forall hidx n0 ops sched j t k, (1 <= n0)%nat ->
-  let s := hrun hidx (hinit n0 ops) sched in
+Theorem C15_concurrent_iteration_no_removed_entry : forall hidx KU n0 ops sched j t k, (1 <= n0)%nat ->
+  let s := hrun hidx KU (hinit n0 ops) sched in
   nth_error (hths s) j = Some t -> hpc_ t = IDone ->
   (forall w, (hst t - 1 <= w < length (hist s))%nat -> nth w (hist s) dflt k = None) -> hyield t k = None.
 Proof. exact conc_iter_no_ghost. Qed.
 Print Assumptions C15_concurrent_iteration_no_removed_entry.
 
+(* the reported size: the current table's counter plus what the writers that have updated it still owe
+   it (a writer adds its +1 / -1 after releasing the bucket lock, to the table it updated; a resize starts
+   the new table with the number of entries it copied) is the number of keys bound; so once every call
+   has returned Size() is exact.  KU is any duplicate-free list containing the keys the Computes use. *)
+Theorem C15_concurrent_size_accounted : forall hidx KU, NoDup KU -> forall n0 ops sched, (1 <= n0)%nat -> Forall (writes_in KU) ops ->
+  let s := hrun hidx KU (hinit n0 ops) sched in
+  (cnt s (hcur s) + zsum (owed s) (hths s))%Z = nb KU s (hcur s).
+Proof. exact conc_size_accounted. Qed.
+Print Assumptions C15_concurrent_size_accounted.
+
+Theorem C15_concurrent_size_exact_when_quiescent : forall hidx KU, NoDup KU -> forall n0 ops sched, (1 <= n0)%nat -> Forall (writes_in KU) ops ->
+  let s := hrun hidx KU (hinit n0 ops) sched in
+  (forall j t, nth_error (hths s) j = Some t -> pending t = false) ->
+  cnt s (hcur s) = nb KU s (hcur s).
+Proof. exact conc_size_exact. Qed.
+Print Assumptions C15_concurrent_size_exact_when_quiescent.
+
+Theorem C15_concurrent_bound_keys_known : forall hidx KU, NoDup KU -> forall n0 ops sched g k, (1 <= n0)%nat -> Forall (writes_in KU) ops ->
+  stores (hrun hidx KU (hinit n0 ops) sched) g k <> None -> In k KU.
+Proof. exact conc_bound_keys_known. Qed.
+Print Assumptions C15_concurrent_bound_keys_known.
+
 (* no deadlock: in every reachable state, if no step of any thread with any input changes the state,
    every call has returned *)
-Theorem C15_concurrent_no_deadlock : forall hidx n0 ops sched, (1 <= n0)%nat ->
-  let s := hrun hidx (hinit n0 ops) sched in
-  stuck hidx s -> forall i t, nth_error (hths s) i = Some t -> finished t.
+Theorem C15_concurrent_no_deadlock : forall hidx KU n0 ops sched, (1 <= n0)%nat ->
+  let s := hrun hidx KU (hinit n0 ops) sched in
+  stuck hidx KU s -> forall i t, nth_error (hths s) i = Some t -> finished t.
 Proof. exact conc_no_deadlock. Qed.
 Print Assumptions C15_concurrent_no_deadlock.
 
 (* bucket locks and the resizing flag are mutual exclusions *)
-Theorem C15_concurrent_bucket_mutex : forall hidx n0 ops sched g b, (1 <= n0)%nat ->
-  (hcnt (holder g b) (hths (hrun hidx (hinit n0 ops) sched)) <= 1)%nat.
+Theorem C15_concurrent_bucket_mutex : forall hidx KU n0 ops sched g b, (1 <= n0)%nat ->
+  (hcnt (holder g b) (hths (hrun hidx KU (hinit n0 ops) sched)) <= 1)%nat.
 Proof. exact conc_bucket_mutex. Qed.
 Print Assumptions C15_concurrent_bucket_mutex.
-Theorem C15_concurrent_resize_mutex : forall hidx n0 ops sched, (1 <= n0)%nat ->
-  (hcnt resz (hths (hrun hidx (hinit n0 ops) sched)) <= 1)%nat.
+Theorem C15_concurrent_resize_mutex : forall hidx KU n0 ops sched, (1 <= n0)%nat ->
+  (hcnt resz (hths (hrun hidx KU (hinit n0 ops) sched)) <= 1)%nat.
 Proof. exact conc_resize_mutex. Qed.
 Print Assumptions C15_concurrent_resize_mutex.
 
 (* a schedule in which a writer must grow the table before its insert, another writer holds a bucket
    the copy needs, a reader loaded the old table before the publication and reads it afterwards, and a
-   delete shrinks the table again: three table versions, every call finishes, every function applied
-   once, the reader's value is the one written during its call *)
+   delete shrinks the table again, while an iteration that loaded the first table reads it at the very
+   end: three table versions, every call finishes, every function applied once, the reader's value is the
+   one written during its call, the iteration yields what the first table held when it was retired, the
+   final size counter is exact *)
 Example C15_concurrent_instance :
   let hx := fun (g : nat) (k : Z) => (Z.to_nat k + g)%nat in
   let ops := [HCompute 1 (fun _ => Some 10); HCompute 2 (fun _ => Some 20); HGet 1;
-              HCompute 1 (fun v => match v with Some x => Some (x + 1) | None => None end); HCompute 2 (fun _ => None)] in
+              HCompute 1 (fun v => match v with Some x => Some (x + 1) | None => None end); HCompute 2 (fun _ => None); HRange] in
   let rep := fun (i n : nat) => repeat (i, 0%nat) n in
-  let sched := rep 0%nat 7%nat ++ [(2, 0)]%nat ++ rep 1%nat 4%nat ++ [(1, 1)]%nat ++ rep 3%nat 4%nat ++ [(1, 0); (1, 0)]%nat ++
-               rep 4%nat 3%nat ++ rep 3%nat 2%nat ++ [(1, 0); (1, 0); (1, 0)]%nat ++ [(2, 0)]%nat ++ rep 1%nat 8%nat ++
-               rep 4%nat 9%nat ++ [(4, 1); (4, 0); (4, 0); (4, 1); (4, 0); (4, 0); (4, 0)]%nat ++ rep 3%nat 3%nat in
-  let fin := hrun hx (hinit 1 ops) sched in
-  map hpc_ (hths fin) = [HDone; HDone; GDone; HDone; HDone] /\ lens fin = [1; 2; 1]%nat /\ hcur fin = 2%nat /\
-  map (fun k => stores fin (hcur fin) k) [1; 2; 3] = [Some 11; None; None] /\
-  map hres (hths fin) = [None; None; Some 11; None; None] /\ map happ (hths fin) = [1; 1; 0; 1; 1]%nat /\
-  map hst (hths fin) = [0; 0; 2; 0; 0]%nat /\ map hwit (hths fin) = [0; 0; 2; 0; 0]%nat.
+  let sched := rep 0%nat 8%nat ++ [(2, 0)]%nat ++ [(5, 0)]%nat ++ rep 1%nat 4%nat ++ [(1, 1)]%nat ++ rep 3%nat 4%nat ++ [(1, 0); (1, 0)]%nat ++
+               rep 4%nat 3%nat ++ rep 3%nat 2%nat ++ [(1, 0); (1, 0); (1, 0)]%nat ++ [(2, 0)]%nat ++ rep 1%nat 9%nat ++
+               rep 4%nat 10%nat ++ [(4, 1); (4, 0); (4, 0); (4, 1); (4, 0); (4, 0); (4, 0)]%nat ++ rep 3%nat 3%nat ++ rep 5%nat 3%nat in
+  let fin := hrun hx [1; 2] (hinit 1 ops) sched in
+  map hpc_ (hths fin) = [HDone; HDone; GDone; HDone; HDone; IDone] /\ lens fin = [1; 2; 1]%nat /\ hcur fin = 2%nat /\
+  map (fun k => stores fin (hcur fin) k) [1; 2; 3] = [Some 11; None; None] /\ cnt fin (hcur fin) = 1 /\
+  map hres (hths fin) = [None; None; Some 11; None; None; None] /\ map happ (hths fin) = [1; 1; 0; 1; 1; 0]%nat /\
+  map hst (hths fin) = [0; 0; 2; 0; 0; 2]%nat /\ map hwit (hths fin) = [0; 0; 2; 0; 0; 0]%nat /\
+  map (hyield (nth 5 (hths fin) (thread_of HRange))) [1; 2] = [Some 11; None].
 Proof. vm_compute. repeat split. Qed.
 
 
